@@ -248,10 +248,11 @@ let nontrivial_json (j : json) : bool =
 (* a number outside the 32-bit range in the input: no property says what a 33-bit delay means (the code wraps it);
    a difference on such an input is reported in class LOAD_OUTSIDE_DOMAIN, which no property observes *)
 let rec has_wide_number (j : json) : bool =
+  let rec bits (p : positive) : int = (match p with XH -> 1 | XO q | XI q -> 1 + bits q) in
   let wide z = (match z with
       | Z0 -> false
-      | Zpos _ -> int_of_z z > 2147483647 || int_of_z z < 0
-      | Zneg _ -> int_of_z z < -2147483648 || int_of_z z > 0) in
+      | Zpos p -> bits p > 31
+      | Zneg p -> bits p > 32 || (bits p = 32 && int_of_pos p > 2147483648)) in
   match j with
   | JNum (Some z) -> (try wide z with _ -> true)
   | JNum None -> true
@@ -267,30 +268,36 @@ let reordered_loads = ref 0
    are Ok, and cutting both at the lengths of the expansions of the prefixes of the source list gives blocks that
    are permutations of each other. *)
 let blockwise_perm (j : json) (real : mapping list res) (reference : mapping list res) : bool =
-  match j, real, reference with
-  | JObj kvs, Ok lr, Ok ls when List.length lr = List.length ls && lr <> [] ->
-    (match List.filter (fun (k, _) -> string_of_nlist k = "mappings") kvs with
-     | [ (mk, JArr ms) ] ->
-       let others = List.filter (fun (k, _) -> string_of_nlist k <> "mappings") kvs in
-       let rec prefixes acc pre rest = (match rest with
-           | [] -> List.rev acc
-           | m :: t -> let pre' = pre @ [ m ] in prefixes (pre' :: acc) pre' t) in
-       let lens = List.map (fun pre ->
-           match x_spec_load (JObj (others @ [ (mk, JArr pre) ])) with Ok l -> Some (List.length l) | _ -> None) (prefixes [] [] ms) in
-       if List.exists (fun x -> x = None) lens then false
+  match real, reference with
+  | Ok lr, Ok ls when List.length lr = List.length ls && lr <> [] && not (x_layout_eqb lr ls) ->
+    (match x_block_lengths j with
+     | None -> false
+     | Some lens ->
+       let rec int_of_nat (n : nat) = (match n with O -> 0 | S m -> 1 + int_of_nat m) in
+       let lens = List.map int_of_nat lens in
+       let total = List.fold_left (+) 0 lens in
+       if total > List.length ls then false
        else begin
-         let cuts = List.map (function Some n -> n | None -> 0) lens in
+         (* the mappings added by repeat-only entries form one last block *)
+         let lens = lens @ [ List.length ls - total ] in
          let rec take n l = if n = 0 then [] else (match l with [] -> [] | x :: t -> x :: take (n - 1) t) in
          let rec drop n l = if n = 0 then l else (match l with [] -> [] | _ :: t -> drop (n - 1) t) in
          let rec remove x l = (match l with [] -> None | y :: t -> if x_layout_eqb [ x ] [ y ] then Some t else (match remove x t with Some t' -> Some (y :: t') | None -> None)) in
          let rec perm a b = (match a with [] -> b = [] | x :: a' -> (match remove x b with Some b' -> perm a' b' | None -> false)) in
-         let rec go prev cuts = (match cuts with
-             | [] -> true
-             | n :: rest -> n >= prev && perm (take (n - prev) (drop prev lr)) (take (n - prev) (drop prev ls)) && go n rest) in
-         (match List.rev cuts with last :: _ when last = List.length ls -> go 0 cuts | _ -> false)
-       end
-     | _ -> false)
-  | _, _, _ -> false
+         let rec go lr ls lens = (match lens with
+             | [] -> lr = [] && ls = []
+             | n :: rest -> perm (take n lr) (take n ls) && go (drop n lr) (drop n ls) rest) in
+         go lr ls lens
+       end)
+  | _, _ -> false
+
+(* do a model answer and a real answer of a loader agree, as far as the properties fix them?  None = yes, Some class = no *)
+let load_differs (jo : json option) (ml : mapping list res) (real : mapping list res) : string option =
+  if x_outcome_eqb ml real then None
+  else match jo with
+    | Some j when blockwise_perm j real ml -> incr reordered_loads; None
+    | Some j when has_wide_number j -> incr outside_loads; Some "TEXT_OUTSIDE_DOMAIN"
+    | _ -> Some "TEXT"
 
 let check_case (c : case) : unit =
   incr cases;
@@ -371,8 +378,9 @@ let check_case (c : case) : unit =
         | Some b ->
           incr text_load_cmp;
           let ml = x_load_text (nlist_of_string b) in
-          if not (x_outcome_eqb ml rf) then begin
-            let (x, y) = diff_str rf ml in report_diff c "TEXT" ("load_layout_from_file(input as a file): " ^ x) ("load_text: " ^ y) end
+          (match load_differs (Some j) ml rf with
+           | Some cls -> let (x, y) = diff_str rf ml in report_diff c cls ("load_layout_from_file(input as a file): " ^ x) ("load_text: " ^ y)
+           | None -> ())
         | None -> ())
      | _, _ -> ());
     (* ... and the saved layout file: its bytes, and the reload from these bytes *)
@@ -457,8 +465,9 @@ let check_tcase (t : tcase) : unit =
    | Some real ->
      incr text_load_cmp;
      let ml = x_load_text input in
-     if not (x_outcome_eqb ml real) then begin
-       let (a, b) = diff_str real ml in report_diff c "TEXT" ("load_layout_from_file: " ^ a) ("load_text: " ^ b) end;
+     (match load_differs (x_parse_text input) ml real with
+      | Some cls -> let (a, b) = diff_str real ml in report_diff c cls ("load_layout_from_file: " ^ a) ("load_text: " ^ b)
+      | None -> ());
      (match real with Panic _ -> report_hit c "C14.file_panic" "panic in load_layout_from_file on a file with these bytes" "Ok or Err" | _ -> ())
    | None -> ())
 
